@@ -26,6 +26,8 @@ fn engine_for(prop: &str) -> Option<Box<dyn Engine>> {
         "C05" => Some(Box::new(trackersim::TrackerEngine { prop: "C05" })),
         "C06" => Some(Box::new(trackersim::TrackerEngine { prop: "C06" })),
         "C20" => Some(Box::new(trackersim::TrackerEngine { prop: "C20" })),
+        "C12" => Some(Box::new(trackersim::TrackerEngine { prop: "C12" })),
+        "C13" => Some(Box::new(trackersim::TrackerEngine { prop: "C13" })),
         _ => None,
     }
 }
